@@ -22,7 +22,10 @@ package main
 import (
 	"fmt"
 	"go/ast"
+	"go/parser"
 	"go/token"
+	"path/filepath"
+	"regexp"
 	"sort"
 	"strconv"
 	"strings"
@@ -35,6 +38,16 @@ type guardSite struct {
 	Func   string            // function name
 	Params []string          // Lean parameter names, in order
 	Map    map[string]string // Go expression text (spaces removed) -> Lean term
+	// Sig: the names the keys of Map assume for the receiver and the parameters of the function,
+	// in order (receiver first; "" = do not care). When the source names them differently the
+	// translator reads the source's names as these (a renamed parameter is the same parameter).
+	Sig []string
+	// DefBy: a local variable defined as the first result of a call to this function (source text of
+	// the callee) stands for this Lean parameter, whatever the variable is called
+	DefBy map[string]string
+	// DefName: a local variable defined as the first result of a call to this function is read under
+	// this (canonical) name, the one the keys of Map use
+	DefName map[string]string
 }
 
 type valueCase struct{ cond, val string }
@@ -42,6 +55,10 @@ type valueCase struct{ cond, val string }
 type guardTr struct {
 	fset     *token.FileSet
 	site     *guardSite
+	rename   map[string]string // actual receiver / parameter name -> the name the site assumes
+	file     *ast.File
+	consts   map[string]string // integer constants of the package
+	inlining int
 	scopes   []map[string]string // inlined local definitions, innermost last ("" = not inlinable)
 	unknown  int
 	guards   []string    // conditions of error returns
@@ -86,7 +103,22 @@ func nospace(s string) string {
 	return strings.Join(strings.Fields(s), "")
 }
 
-func (tr *guardTr) text(e ast.Node) string { return nospace(exprText(tr.fset, e)) }
+var identRe = regexp.MustCompile(`[A-Za-z_][A-Za-z0-9_]*`)
+
+// text: the expression as the site's Map spells it (receiver and parameters under the names the
+// site assumes; a selector's field name after a dot is left alone)
+func (tr *guardTr) text(e ast.Node) string {
+	t := nospace(exprText(tr.fset, e))
+	if len(tr.rename) == 0 {
+		return t
+	}
+	return identRe.ReplaceAllStringFunc(t, func(w string) string {
+		if n, ok := tr.rename[w]; ok {
+			return n
+		}
+		return w
+	})
+}
 
 func (tr *guardTr) bad(e ast.Node) (string, bool) {
 	tr.unknown++
@@ -115,6 +147,14 @@ func (tr *guardTr) intExpr(e ast.Expr) (string, bool) {
 		}
 	case *ast.Ident:
 		if v, ok := tr.lookup(x.Name); ok {
+			return v, true
+		}
+		if n, ok := tr.rename[x.Name]; ok {
+			if m, ok := tr.site.Map[n]; ok {
+				return m, true
+			}
+		}
+		if v, ok := tr.consts[x.Name]; ok {
 			return v, true
 		}
 	case *ast.SelectorExpr:
@@ -228,6 +268,30 @@ func conj(path, c string) string {
 }
 
 func (tr *guardTr) assign(lhs []ast.Expr, rhs []ast.Expr, define bool) {
+	if define && len(rhs) == 1 && len(lhs) >= 1 && len(tr.site.DefName) > 0 {
+		if call, ok := rhs[0].(*ast.CallExpr); ok {
+			if canon, ok := tr.site.DefName[tr.text(call.Fun)]; ok {
+				if id, ok := lhs[0].(*ast.Ident); ok && id.Name != "_" && id.Name != canon {
+					tr.rename[id.Name] = canon
+				}
+			}
+		}
+	}
+	if define && len(rhs) == 1 && len(lhs) >= 1 && len(tr.site.DefBy) > 0 {
+		if call, ok := rhs[0].(*ast.CallExpr); ok {
+			if lean, ok := tr.site.DefBy[tr.text(call.Fun)]; ok {
+				if id, ok := lhs[0].(*ast.Ident); ok && id.Name != "_" {
+					tr.scopes[len(tr.scopes)-1][id.Name] = lean
+					for _, l := range lhs[1:] {
+						if id2, ok := l.(*ast.Ident); ok && id2.Name != "_" {
+							tr.scopes[len(tr.scopes)-1][id2.Name] = ""
+						}
+					}
+					return
+				}
+			}
+		}
+	}
 	if len(lhs) == 1 && len(rhs) == 1 {
 		if id, ok := lhs[0].(*ast.Ident); ok {
 			if _, declared := tr.site.Map[id.Name]; declared {
@@ -308,6 +372,13 @@ func (tr *guardTr) walk(b *ast.BlockStmt, path string, top bool) {
 			}
 			c, _, errCheck := tr.cond(s.Cond)
 			if errCheck {
+				// `if err := helper(args); err != nil { return …, err }` with a helper of this file that
+				// only checks integers: its conditions count as conditions of this function
+				if as, ok := s.Init.(*ast.AssignStmt); ok && len(as.Rhs) == 1 && s.Else == nil && diverts(s.Body) {
+					if call, ok := as.Rhs[0].(*ast.CallExpr); ok && tr.inlineHelper(call, path) {
+						continue
+					}
+				}
 				if s.Else == nil && diverts(s.Body) {
 					if rs, ok := s.Body.List[len(s.Body.List)-1].(*ast.ReturnStmt); ok && tr.hasErr && returnsError(rs) {
 						tr.errChk++
@@ -324,6 +395,30 @@ func (tr *guardTr) walk(b *ast.BlockStmt, path string, top bool) {
 			}
 			if !top && s.Else == nil && diverts(s.Body) {
 				path = conj(path, "(!"+c+")")
+			}
+		case *ast.SwitchStmt:
+			if s.Tag != nil || s.Init != nil {
+				continue
+			}
+			// `switch { case c1: … case c2: … default: … }` = if c1 … else if c2 … else …
+			neg := path
+			for _, cl := range s.Body.List {
+				cc := cl.(*ast.CaseClause)
+				cpath := neg
+				if cc.List != nil {
+					var alts []string
+					for _, e := range cc.List {
+						c, _, _ := tr.cond(e)
+						alts = append(alts, c)
+					}
+					c := alts[0]
+					if len(alts) > 1 {
+						c = "(" + strings.Join(alts, " || ") + ")"
+					}
+					cpath = conj(neg, c)
+					neg = conj(neg, "(!"+c+")")
+				}
+				tr.walk(&ast.BlockStmt{List: cc.Body}, cpath, false)
 			}
 		case *ast.ForStmt:
 			tr.scopes = append(tr.scopes, map[string]string{})
@@ -375,6 +470,54 @@ func (tr *guardTr) walk(b *ast.BlockStmt, path string, top bool) {
 	}
 }
 
+// inlineHelper: the error conditions of an unexported, error-returning function of the same file,
+// with its parameters bound to the (translated) arguments of the call
+func (tr *guardTr) inlineHelper(call *ast.CallExpr, path string) bool {
+	id, ok := call.Fun.(*ast.Ident)
+	if !ok || tr.file == nil || tr.inlining > 2 {
+		return false
+	}
+	var fd *ast.FuncDecl
+	for _, d := range tr.file.Decls {
+		if f, ok := d.(*ast.FuncDecl); ok && f.Recv == nil && f.Name.Name == id.Name && f.Body != nil {
+			fd = f
+		}
+	}
+	if fd == nil || fd.Type.Results == nil || len(fd.Type.Results.List) != 1 {
+		return false
+	}
+	if rid, ok := fd.Type.Results.List[0].Type.(*ast.Ident); !ok || rid.Name != "error" {
+		return false
+	}
+	var names []string
+	for _, fl := range fd.Type.Params.List {
+		for _, n := range fl.Names {
+			names = append(names, n.Name)
+		}
+	}
+	if len(names) != len(call.Args) {
+		return false
+	}
+	scope := map[string]string{}
+	for i, a := range call.Args {
+		save := tr.unknown
+		v, ok := tr.intExpr(a)
+		if !ok {
+			tr.unknown = save
+			return false
+		}
+		scope[names[i]] = v
+	}
+	// the helper's body sees its parameters only (plus package constants)
+	savedScopes, savedRename, savedHasErr, savedBool := tr.scopes, tr.rename, tr.hasErr, tr.boolFunc
+	tr.scopes, tr.rename, tr.hasErr, tr.boolFunc = []map[string]string{scope}, map[string]string{}, true, false
+	tr.inlining++
+	tr.walk(fd.Body, path, false)
+	tr.inlining--
+	tr.scopes, tr.rename, tr.hasErr, tr.boolFunc = savedScopes, savedRename, savedHasErr, savedBool
+	return true
+}
+
 func isBoolLit(e ast.Expr) bool {
 	id, ok := e.(*ast.Ident)
 	return ok && (id.Name == "true" || id.Name == "false")
@@ -403,6 +546,43 @@ func findMethod(f *ast.File, recv, name string) *ast.FuncDecl {
 	return nil
 }
 
+// packageIntConsts: the integer constants declared (with a literal value) in the files of the
+// directory of `file`
+func packageIntConsts(file string) map[string]string {
+	out := map[string]string{}
+	dir := filepath.Dir(filepath.Join(repo, file))
+	names, _ := filepath.Glob(filepath.Join(dir, "*.go"))
+	for _, n := range names {
+		if strings.HasSuffix(n, "_test.go") {
+			continue
+		}
+		f, err := parser.ParseFile(token.NewFileSet(), n, nil, 0)
+		if err != nil {
+			continue
+		}
+		for _, d := range f.Decls {
+			gd, ok := d.(*ast.GenDecl)
+			if !ok || gd.Tok != token.CONST {
+				continue
+			}
+			for _, sp := range gd.Specs {
+				vs, ok := sp.(*ast.ValueSpec)
+				if !ok || len(vs.Names) != len(vs.Values) {
+					continue
+				}
+				for i, nm := range vs.Names {
+					if bl, ok := vs.Values[i].(*ast.BasicLit); ok && bl.Kind == token.INT {
+						if v, err := strconv.ParseInt(bl.Value, 0, 64); err == nil {
+							out[nm.Name] = fmt.Sprint(v)
+						}
+					}
+				}
+			}
+		}
+	}
+	return out
+}
+
 func leanBoolList(xs []string) string {
 	if len(xs) == 0 {
 		return "[]"
@@ -422,7 +602,25 @@ func genGuardFile(file string, sites []guardSite) {
 			fmt.Fprintf(&sb, "-- %s: %s (%s).%s not found\ndef %s_guards : List Bool := function_not_found\n\n", s.Name, s.File, s.Recv, s.Func, s.Name)
 			continue
 		}
-		tr := &guardTr{fset: fset, site: s}
+		tr := &guardTr{fset: fset, site: s, rename: map[string]string{}, file: f, consts: packageIntConsts(s.File)}
+		if len(s.Sig) > 0 {
+			var actual []string
+			if fd.Recv != nil && len(fd.Recv.List) == 1 && len(fd.Recv.List[0].Names) == 1 {
+				actual = append(actual, fd.Recv.List[0].Names[0].Name)
+			} else {
+				actual = append(actual, "")
+			}
+			for _, fl := range fd.Type.Params.List {
+				for _, n := range fl.Names {
+					actual = append(actual, n.Name)
+				}
+			}
+			for i, want := range s.Sig {
+				if i < len(actual) && want != "" && actual[i] != "" && actual[i] != want {
+					tr.rename[actual[i]] = want
+				}
+			}
+		}
 		if fd.Type.Results != nil {
 			rs := fd.Type.Results.List
 			if len(rs) > 0 {
